@@ -54,7 +54,28 @@ def term_content(rng, sid, n, dup=False):
     return "\n".join(lines) + "\n"
 
 
+def grammar_history(rng):
+    """a caller who builds grammars from several treebanks with ONE settings object (and who repeats a call)"""
+    calls = []
+    mo = rng.choice([{"v": 1, "h": 1}, {"v": 1, "h": 2}, {"v": 2, "h": 1}, {"v": 1, "h": 1, "nofanout": True}, None])
+    key = rng.choice(["opts-a", "opts-a", None])
+    for _ in range(rng.randint(2, 4)):
+        if calls and rng.random() < 0.3:
+            calls.append(dict(calls[-1]))          # literally the same call again
+            continue
+        ts = []
+        for _ in range(rng.randint(1, 3)):
+            cfg = treegen.Cfg(n_min=3, n_max=8, none_fields=False, labels=["S", "VP", "NP"], words=["a", "b", "Haus", "der"],
+                              punct_words=[",", "."], edges=["HD", "--", "NK"], max_arity=5, p_disc=rng.choice([0.0, 0.4]))
+            ts.append(treegen.gen_tree(rng, cfg))
+        calls.append({"op": "grammar", "trees": [proto.enc_tree(t) for t in ts], "mode": rng.choice(["leftright", "optimal"]),
+                      "markov": mo, "markov_key": key, "fmt": rng.choice(["rcg", "pmcfg"]), "opts": {}, "times": 1})
+    return calls
+
+
 def mk_history(rng):
+    if rng.random() < 0.3:
+        return grammar_history(rng)
     files = {"t1.txt": None, "t2.txt": None, "dup.txt": None}
     calls = []
     n = rng.randint(3, 7)
